@@ -259,7 +259,6 @@ func c06Replay(rp json.RawMessage) *engine.Violation {
 	return nil
 }
 
-
 // c06Eth2 runs one two-link history; returns "" or what went wrong.
 func c06Eth2(order [2]int, announce bool) string {
 	w := NewWorld()
